@@ -381,6 +381,28 @@ def r03_7(run):
     run.count("forward passes accepting where=", len(ops))
 
 
+
+def r03_10(run):
+    """integer-ness tests accept NumPy integers.  NumPy's own functions take np.int64(2) wherever they take 2 (axis, repeats, shifts, sizes);
+    `isinstance(x, int)` is False for every NumPy integer scalar, so a forward pass that hands the value to NumPy succeeds while the code
+    guarded by the test (a backward rule, a validation) takes the wrong branch or raises.  numbers.Integral / np.integer recognise both."""
+    n = 0
+    for fi in run.project.all_functions():
+        for c in own_nodes(fi.node):
+            if not (isinstance(c, ast.Call) and isinstance(c.func, ast.Name) and c.func.id == "isinstance" and len(c.args) == 2):
+                continue
+            tys = c.args[1].elts if isinstance(c.args[1], ast.Tuple) else [c.args[1]]
+            names = [norm(t) for t in tys]
+            if "int" not in names:
+                continue
+            n += 1
+            ok = any(x.split(".")[-1] in ("Integral", "integer", "Number", "Real", "generic") for x in names)
+            run.ob("R03.10", loc(fi, c), fi.short, f"integer test `{norm(c)[:50]}` also recognises NumPy integers", ok,
+                   "an abstract integer class is among the tested types" if ok else
+                   "`int` alone: np.int64 / np.intp values (what NumPy returns for sizes, indices and counts) fail the test although NumPy accepts them "
+                   "in the same position")
+    run.count("Python-int type tests", n)
+
 def check(run):
     run.rule("R03.1", "UnaryUfunc/BinaryUfunc/Sequential.__call__: operands reach the kernel in order; every option reaches it under its own "
              "name unless it holds its not-given sentinel", floor=15)
@@ -394,6 +416,10 @@ def check(run):
     from .util import type_narrowed_dead_params
     n = type_narrowed_dead_params(run, "R03.8", [f for f in run.project.all_functions() if not f.module.name.startswith("mygrad.nnet")])
     run.count("type-tested parameters", n)
+    run.rule("R03.10", "isinstance(x, int) tests also admit NumPy integers (numbers.Integral / np.integer)", floor=0)
+    run.do(r03_10)
+    run.control("R03.10", r03_10, [("tensor_manip/tiling/ops.py", None, None, "def _verif_control_r03_10(repeats):\n    return 1 if isinstance(repeats, int) else len(repeats)")],
+                "isinstance(x, int) on a caller-supplied count")
     run.rule("R03.9", "`out` is consulted on every path of every function that accepts and uses it", floor=20)
     from .util import path_dead_option
     n2 = run.do(lambda r: path_dead_option(r, "R03.9", "out", "the result is not written into the caller's out= target on that branch (NumPy's namesake does)"))
